@@ -281,6 +281,12 @@ func (w *world) exec(line string) string {
 		}
 		synctest.Wait()
 		return w.g.keys() + " " + w.groupsStr()
+	case "procs":
+		// the container's CPU limit changes while the dispatcher runs (Go adjusts GOMAXPROCS at run time): the worker an
+		// alert is handed to must not change, or queued and new versions of one alert are applied out of order
+		runtime.GOMAXPROCS(int(hx.Atoi64(t[1])))
+		synctest.Wait()
+		return w.g.keys()
 	case "groups":
 		w.drain()
 		return w.groupsStr()
@@ -471,9 +477,13 @@ func runCase(t *testing.T, tr *hx.Trace, id int, r *rand.Rand, script []string, 
 			do("groups")
 			return
 		}
+		procsLeft := r.IntN(3) / 2
 		for nput > 0 || (parkedNow != "-" && parkedNow != "" && r.IntN(3) > 0) {
 			ps := hx.Split(parkedNow, ",")
-			if nput > 0 && (len(ps) == 0 || r.IntN(2) == 0) {
+			if procsLeft > 0 && len(ps) > 0 && nput > 0 && r.IntN(3) == 0 {
+				procsLeft--
+				parkedNow = do(fmt.Sprintf("procs %d", hx.Pick(r, []int{1, 2, 4, 6, 16})))
+			} else if nput > 0 && (len(ps) == 0 || r.IntN(2) == 0) {
 				nput--
 				parkedNow = put()
 			} else if len(ps) > 0 {
